@@ -29,6 +29,10 @@ DOCS = [
     "",
     "only free text\nwith two lines",
     "@comment{c1}\n@comment{c2}\n@a{z, t = {1}}\n@a{a, t = {2}}\n% attached\n@string{zz = {9}}\n@preamble{p}\n% trailing",
+    # a file as reference managers write it: encoding header first, a group of entries that refer to one another, a
+    # first holder of a key that a name middleware turns into an error block, blank lines between comment and block
+    "% Encoding: UTF-8\n\n@comment{jabref-meta: databaseType:bibtex;}\n\n@inproceedings{child, crossref = {parent}, author = {Smith, John, Jr, Extra}, title = {C}}\n"
+    "@inproceedings{child, crossref = {parent}, author = {Second Holder}, title = {D}}\n% note\n\n\n@proceedings{parent, title = {P}, editor = {Ed Itor}, doi = {10.1000/a_b}}\n",
 ]
 
 PREPS = [
